@@ -631,6 +631,14 @@ pub fn directed(lang: u8, v: &mut Vec<Input>) {
         // GQL has no count(*)
         add!("clique", 2, q.replace("count(*)", "count(a)"));
     }
+    // ---- unbounded variable length over a sparse cycle (3-ring, out-degree 1): must return ----
+    for q in [
+        "MATCH (a:Ring {id: 0})-[:NEXT*]->(b) RETURN count(b)", "MATCH (a:Ring {id: 0})-[*]->(b) RETURN count(b)", "MATCH (a:Ring)-[:NEXT*2..]->(b) RETURN count(b)",
+        "MATCH (a:Ring {id: 0})-[:NEXT*1..]->(b:Ring {id: 0}) RETURN count(b)", "MATCH (a:Ring {id: 1})-[:NEXT*0..]->(b) RETURN count(b)", "MATCH (a:Ring {id: 0})-[:NEXT*]-(b) RETURN count(b)",
+        "MATCH (a:Ring {id: 0})<-[:NEXT*]-(b) RETURN count(b)", "MATCH (a:Ring {id: 0})-[r:NEXT*]->(b) RETURN b.id LIMIT 1", "MATCH (a:Ring {id: 0})-[:NEXT*]->(b)-[:NEXT*]->(c) RETURN count(c)",
+    ] {
+        v.push(Input::new(lang, 1, "varlen-sparse-cycle", q.to_string()).cons("varlen-sparse-cycle"));
+    }
     // ---- explosive: unbounded variable length on the dense clique (each alone) -----------
     for (c, q) in [
         ("varlen-unbounded", "MATCH (a:K {id: 0})-[:KNOWS*]->(b:K {id: 5}) RETURN count(*)"),
